@@ -89,7 +89,26 @@ def generate(seed: int, tier: str) -> Dict[str, Any]:
     return {"target": "contract", "agents": agents, "workers": r.randint(2, 8), "limits": [1, r.choice([60, 200, 1000, 6000]), 32 * 1024 * 1024],
             "every": r.choice([1, 1, 2, 3]), "turn_id": r.choice([0, 1, 2, 6, "7"]), "bust": r.choice(["none", "on-apply"]),
             # the T4 kill switch: a turn then neither applies nor logs T4 / apply records, in a loop and through the driver alike
-            "t4_enabled": not r.chance(0.15)}
+            "t4_enabled": not r.chance(0.15),
+            # the state as an object with attributes (what the read-only snapshot of the compute phase freezes) or as a plain dict;
+            # a registry on it whose insertion order is not its sorted order, which some turns read and log
+            "state_style": r.choice(["dict", "dict", "attr", "attr"]), "registry": r.sample(["n4", "n1", "n3", "n2", "B", "a"], r.randint(2, 5)),
+            "readers": sorted(a["id"] for a in agents if r.chance(0.3)),
+            # a driver context that carries no turn id at all
+            "no_turn_id": r.chance(0.06)}
+
+
+class _AState(dict):
+    """Engine state with attribute access (state.graphs_by_agent ...), as the engine's own State objects offer."""
+
+    def __getattr__(self, name):
+        try:
+            return self[name]
+        except KeyError:
+            raise AttributeError(name)
+
+    def __setattr__(self, name, value):
+        self[name] = value
 
 
 class _Store:
@@ -128,8 +147,22 @@ def _mk_stub(spec_by_agent: Dict[str, Dict[str, Any]]):
                 live["deep"]["per_graph"]["g2"] = {"seen": [], "n": 0}
                 live["deep"]["rows"][0].append("late")
                 live["deep"]["rows"][1]["k"].append(2)
+        extra = ""
+        if spec.get("reads_registry"):
+            # an order-sensitive read of a mapping on the state (first two entries in iteration order), logged together with the
+            # list held under the first one - in the compute phase these come out of the read-only snapshot
+            reg = getattr(state, "registry", None)
+            if reg is None:
+                reg = state.get("registry") if hasattr(state, "get") else None
+            if reg is not None:
+                first = list(reg)[:2]
+                held = reg[first[0]] if first else []
+                append_jsonl("t1.jsonl", {"agent": str(ctx.agent_id), "turn": ctx.turn_id, "first": first, "held": held, "n": len(reg)})
+                extra = " [" + " ".join(str(x) for x in first) + "]"
         deltas = [ProposedDelta(target_kind="node", target_id=d["id"], attr="weight", delta=float(d["delta"]), op_idx=None, idx=i)
                   for i, d in enumerate(spec["deltas"])]
+        if extra:
+            spec = dict(spec, utter=spec["utter"] + extra)
         t4 = types.SimpleNamespace(approved_deltas=deltas, rejected_ops=[], reasons=[], metrics={})
         t4cfg = (ctx.cfg.get("t4") or {}) if isinstance(ctx.cfg, dict) else {}
         if not bool(t4cfg.get("enabled", True)):
@@ -152,10 +185,12 @@ def _mk_stub(spec_by_agent: Dict[str, Dict[str, Any]]):
 
 def _contract_once(p: Dict[str, Any], mode: str, limit: Optional[int], stats: Dict[str, int]) -> Dict[str, Any]:
     """mode: 'driver' (parallel gate on, staging byte limit `limit`) or 'loop' (sequential reference over `picked`)."""
-    clock = SimClock(None, "steady")
+    # (a wall clock that does not sit on a round number: anything derived from it must show)
+    clock = SimClock(None, "steady", wall0_s=1_700_000_000.0 + 4321.987)
     out: Dict[str, Any] = {"exc": None}
     spec_by_agent: Dict[Any, Dict[str, Any]] = {}
     for a in p["agents"]:
+        a = dict(a, reads_registry=a["id"] in (p.get("readers") or []))
         spec_by_agent.setdefault(a["id"], a)
         spec_by_agent[(a["id"], a["text"])] = a
     real_run_turn = core.Orchestrator.run_turn
@@ -166,8 +201,12 @@ def _contract_once(p: Dict[str, Any], mode: str, limit: Optional[int], stats: Di
                    "perf": {"enabled": True, "parallel": {"enabled": True, "agents": True, "max_workers": int(p["workers"])}}}
             cfg = E.make_cfg(raw)
             ctx = types.SimpleNamespace(cfg=cfg, config=cfg, turn_id=p["turn_id"], now_ms=E.T0_MS, now=E.iso_from_ms(E.T0_MS))
+            if p.get("no_turn_id"):
+                del ctx.turn_id
             store = _Store()
-            state: Dict[str, Any] = {"store": store, "version_etag": "0", "graphs_by_agent": {}, "agents": {}}
+            state: Dict[str, Any] = (_AState if p.get("state_style") == "attr" else dict)(
+                {"store": store, "version_etag": "0", "graphs_by_agent": {}, "agents": {}})
+            state["registry"] = {k: ["held-by-%s" % k, i] for i, k in enumerate(p.get("registry") or [])}
             for a in p["agents"]:
                 decl = a.get("decl", "gba")
                 if decl in ("gba", "both", "meta_plus_gba"):
@@ -213,7 +252,7 @@ def _contract_once(p: Dict[str, Any], mode: str, limit: Optional[int], stats: Di
                         if aid not in picked or aid in ran:
                             continue
                         ran.add(aid)
-                        sub = opar._clone_ctx_for_agent(ctx, aid, ctx.turn_id)
+                        sub = opar._clone_ctx_for_agent(ctx, aid, getattr(ctx, "turn_id", 0))   # as the driver's own sequential branch
                         sub._dry_run_until_t4 = False
                         res.append(core.Orchestrator().run_turn(sub, state, text))
                     out["results"] = [getattr(x, "line", None) for x in res]
